@@ -236,7 +236,7 @@ func parseHeaders(doc string) map[string]string {
 }
 
 func parseKV(str string) map[string]string {
-	regKV := regexp.MustCompile(`{([\w|-]+)\W*:\W*([^}]+)}`)
+	regKV := regexp.MustCompile(`{([\w|-]+)\s*:\s*([^}]+)}`)
 	kvLst := regKV.FindAllStringSubmatch(str, -1)
 	if len(kvLst) == 0 {
 		return nil
